@@ -28,6 +28,8 @@ class MirContext:
                 raise RuntimeError("MIR dump failed: " + " | ".join(errs))
             self.fns = mir.parse_mir(path)
             self.structs, self.enums = mir.parse_layouts(os.path.join(self.scratch.repo, "src"))
+            sp = os.path.join(self.scratch.repo, "src", "spaces", "simple.rs")
+            self.simple_rs = open(sp).read() if os.path.exists(sp) else ""
             self.dump_s = time.time() - t0
             self.n_fns = len(self.fns)
         finally:
